@@ -10,6 +10,7 @@ package main
 
 import (
 	"bytes"
+	"encoding/json"
 	"fmt"
 	"io"
 	"os"
@@ -31,6 +32,7 @@ type Mutant struct {
 	Property string
 	Rule     string // rule expected to fire (exact rule name)
 	Edits    []Edit
+	Patch    string // unified diff applied with `git apply` instead of Edits (seeded changes)
 	Note     string
 }
 
@@ -103,7 +105,16 @@ func runOneMutant(m Mutant, repo string) mutantEvidence {
 		ev.Status, ev.Detail = "broken", "copy: "+err.Error()
 		return ev
 	}
-	stale, err := applyEdits(dir, m)
+	var stale string
+	if m.Patch != "" {
+		cmd := exec.Command("git", "apply", m.Patch)
+		cmd.Dir = dir
+		if out, perr := cmd.CombinedOutput(); perr != nil {
+			stale = "seeded patch no longer applies: " + firstLines(string(out), 2)
+		}
+	} else {
+		stale, err = applyEdits(dir, m)
+	}
 	if err != nil {
 		ev.Status, ev.Detail = "broken", err.Error()
 		return ev
@@ -157,6 +168,24 @@ func runMutants(id, repo string) []mutantEvidence {
 		if m.Property == id {
 			ms = append(ms, m)
 		}
+	}
+	// independently seeded changes recorded under /verif/seeded
+	metas, _ := filepath.Glob(filepath.Join(verifDir(), "seeded", "*", "meta.json"))
+	sort.Strings(metas)
+	for _, mf := range metas {
+		b, err := os.ReadFile(mf)
+		if err != nil {
+			continue
+		}
+		var meta struct {
+			ID       string `json:"id"`
+			Property string `json:"property"`
+			Expect   string `json:"expect_rule"`
+		}
+		if json.Unmarshal(b, &meta) != nil || meta.Property != id || meta.Expect == "" {
+			continue
+		}
+		ms = append(ms, Mutant{Name: "seed-" + meta.ID, Property: id, Rule: meta.Expect, Patch: filepath.Join(filepath.Dir(mf), "patch.diff")})
 	}
 	out := make([]mutantEvidence, len(ms))
 	sem := make(chan struct{}, 8)
